@@ -113,7 +113,12 @@ def tucker_als(  # noqa: PLR0912, PLR0913, PLR0915
                 f"Init needs to be of length tensor.ndim (which was {N}) but only got "
                 f"length {len(init)}."
             )
-        for n in dimorder[1::]:
+        # Every factor that is given is checked. The one for the first mode in
+        # dimorder is replaced before it is read, so it may be left as None
+        # (as in the initial guess this function returns for a random start)
+        for n in range(N):
+            if n == dimorder[0] and Uinit[n] is None:
+                continue
             correct_shape = (input_tensor.shape[n], rank[n])
             if Uinit[n].shape != correct_shape:
                 raise ValueError(
